@@ -559,7 +559,7 @@ class PathLimit(Exception):
 class PathEval:
     """Enumerate and evaluate acyclic paths of a body."""
 
-    def __init__(self, fx, body, max_paths=20000, adt_discr=None, inline=None, _stack=()):
+    def __init__(self, fx, body, max_paths=20000, adt_discr=None, inline=None, _stack=(), desugar=False):
         self.fx = fx
         self.body = body
         self.max_paths = max_paths
@@ -568,6 +568,10 @@ class PathEval:
         self.inline = inline or frozenset()
         self._stack = _stack
         self.inlined = set()
+        # desugar: evaluate Option/Result combinators (map, and_then, unwrap_or, ok, or, ok_or, map_or, filter, is_some_and ...) as the
+        # match they abbreviate, applying closure arguments by splicing the closure body in: `x.map(f)`, `match x {..}` and `if let` then
+        # give the same paths.  Opt-in per rule module (DESUGAR = True): it changes which call events a path carries.
+        self.desugar = desugar
         self._loop_defs = {h: body.assigned_locals(blks) for h, blks in body.loops.items()}
         self._loop_stores = {}
         self.npaths = 0
@@ -872,6 +876,24 @@ class PathEval:
                 if t["target"] is None:
                     self._finish(out, blocks, events, ("diverge", bb), st)
                     return
+                alts = self._desugar(path, args, tuple(f.get("gargs", ())), bb) if self.desugar else None
+                if alts is not None:
+                    events = events[:-1]
+                    for (aevents, afacts, aval) in alts:
+                        st2 = self._clone(st)
+                        if not self._assume(st2, afacts):
+                            continue
+                        evs = events + [Event("cond", bb, term=c, fact=fact) for (c, fact) in afacts if not (isinstance(c, tuple) and c and c[0] == "const")] + list(aevents)
+                        for e in aevents:
+                            if e.kind == "store":
+                                st2["mem"][e.place] = e.value
+                        if aval is None:
+                            self._finish(out, blocks, evs, ("diverge", bb), st2)
+                            continue
+                        evs2 = list(evs)
+                        self.assign(st2, t["dest"], aval, bb, evs2)
+                        self._walk(t["target"], st2, blocks, evs2, onpath, out, stop_at)
+                    return
                 summ = self._inline_summary(path) if self.inline else None
                 if summ is not None:
                     # a helper introduced after the rules were written: splice its paths in instead of an opaque call
@@ -894,8 +916,10 @@ class PathEval:
                         if not feasible:
                             continue
                         evs = events + [sub.event(e) for e in cevents]
-                        # a caller local handed on as &mut is mutated by the calls the helper makes with it
+                        # a caller local handed on as &mut is mutated by the calls the helper makes with it; stores through it land in the caller's memory
                         for e in evs[len(events):]:
+                            if e.kind == "store":
+                                st2["mem"][e.place] = e.value
                             if e.kind == "call":
                                 for a in e.args:
                                     if isinstance(a, tuple) and a[0] == "refmut" and isinstance(a[1], tuple) and a[1][0] == "loc":
@@ -961,16 +985,183 @@ class PathEval:
             self._finish(out, blocks, events, ("other", bb), st)
             return
 
+    def _assume(self, st, facts):
+        """add (cond, fact) pairs to st['facts']; False if they contradict what the path already assumes"""
+        for c, fact in facts:
+            known = self._known(st, c)
+            if known is not None:
+                if fact[0] == "eq" and ((known[0] == "eq" and known[1] != fact[1]) or (known[0] == "ne" and fact[1] in known[1])):
+                    return False
+                if fact[0] == "ne" and known[0] == "eq" and known[1] in fact[1]:
+                    return False
+            if not (isinstance(c, tuple) and c and c[0] == "const"):
+                st["facts"][c] = fact
+        return True
+
+    # ---- Option / Result combinators as the matches they abbreviate
+    def _payload(self, o, variant):
+        if isinstance(o, tuple) and o and o[0] == "agg" and o[1] == "adt" and o[3] == variant and o[4]:
+            return o[4][0]
+        return ("field", ("downcast", o, variant), 0, "")
+
+    def _discr(self, o):
+        if isinstance(o, tuple) and o and o[0] == "agg" and o[1] == "adt":
+            d = self.variant_discr(o[2], o[3])
+            if d is not None:
+                return ("const", "isize", d)
+        return ("discr", o)
+
+    def _apply(self, f, args, bb):
+        """[(events, facts, value-or-None)] for applying a closure / fn item to argument terms"""
+        if isinstance(f, tuple) and f and f[0] in ("ref", "refmut"):
+            f = f[1]
+        if isinstance(f, tuple) and f and f[0] == "agg" and f[1] == "closure":
+            key = f[2]
+            fn = self.fx.fns.get(key)
+            summ = self._inline_summary(key, force=True) if fn is not None else None
+            if summ is not None:
+                byref = fn["locals"][1]["ty"].startswith("&") if len(fn["locals"]) > 1 else False
+                env = ("ref", f) if byref else f
+                out = []
+                for (cevents, cfacts, cend) in summ:
+                    sub = _Subst((env,) + tuple(args), bb, key)
+                    out.append(([sub.event(e) for e in cevents if e.kind != "cond"], [(sub(c), fact) for c, fact in cfacts], sub(cend[1]) if cend[0] == "return" else None))
+                return out
+            return [([], [], ("call", "closure-apply", (), (f,) + tuple(args), bb))]
+        if isinstance(f, tuple) and f and f[0] == "const" and isinstance(f[2], tuple) and f[2] and f[2][0] == "fn":
+            path = f[2][1]
+            summ = self._inline_summary(path) if self.inline else None
+            if summ is not None:
+                out = []
+                for (cevents, cfacts, cend) in summ:
+                    sub = _Subst(tuple(args), bb, path if path in self.fx.fns else norm_path(path))
+                    out.append(([sub.event(e) for e in cevents if e.kind != "cond"], [(sub(c), fact) for c, fact in cfacts], sub(cend[1]) if cend[0] == "return" else None))
+                return out
+            return [([], [], ("call", path, (), tuple(args), None if is_pure(path) else bb))]
+        return [([], [], ("call", "closure-apply", (), (f,) + tuple(args), bb))]
+
+    def _desugar(self, path, args, gargs, bb):
+        q = norm_path(path)
+        if path.endswith("Try>::branch") and len(args) == 1 and ("std::option::Option<" in path or "std::result::Result<" in path):
+            # `x?` is `match x { Some(v)/Ok(v) => v, None/Err(e) => return ..from_residual(..) }`
+            o = args[0]
+            CF = "std::ops::ControlFlow"
+            d = self._discr(o)
+            if "std::option::Option<" in path.split(" as ")[0]:
+                return [([], [(d, ("eq", 1))], ("agg", "adt", CF, "Continue", (self._payload(o, "Some"),), ())),
+                        ([], [(d, ("eq", 0))], ("agg", "adt", CF, "Break", (("agg", "adt", "std::option::Option", "None", (), ()),), ()))]
+            return [([], [(d, ("eq", 0))], ("agg", "adt", CF, "Continue", (self._payload(o, "Ok"),), ())),
+                    ([], [(d, ("eq", 1))], ("agg", "adt", CF, "Break", (("agg", "adt", "std::result::Result", "Err", (self._payload(o, "Err"),), ()),), ()))]
+        if q.startswith("std::option::Option::") or q.startswith("core::option::Option::"):
+            ty, m = "O", q.rsplit("::", 1)[1]
+        elif q.startswith("std::result::Result::") or q.startswith("core::result::Result::"):
+            ty, m = "R", q.rsplit("::", 1)[1]
+        else:
+            return None
+        if not args:
+            return None
+        o = args[0]
+        if isinstance(o, tuple) and o and o[0] in ("ref",) and m in ("is_some_and", "is_ok_and"):
+            o = o[1]
+        OPT, RES = "std::option::Option", "std::result::Result"
+
+        def some(x):
+            return ("agg", "adt", OPT, "Some", (x,), ())
+
+        def none():
+            return ("agg", "adt", OPT, "None", (), ())
+
+        def okv(x):
+            return ("agg", "adt", RES, "Ok", (x,), ())
+
+        def errv(x):
+            return ("agg", "adt", RES, "Err", (x,), ())
+        d = self._discr(o)
+        if ty == "O":
+            yes, no = (d, ("eq", 1)), (d, ("eq", 0))
+            pv = self._payload(o, "Some")
+        else:
+            yes, no = (d, ("eq", 0)), (d, ("eq", 1))
+            pv = self._payload(o, "Ok")
+            ev = self._payload(o, "Err")
+
+        def lift(alts, fact, wrap=lambda v: v):
+            return [(e, [fact] + fs, (wrap(v) if v is not None else None)) for (e, fs, v) in alts]
+        T, F = ("const", "bool", True), ("const", "bool", False)
+        if ty == "O":
+            if m == "map" and len(args) == 2:
+                return lift(self._apply(args[1], (pv,), bb), yes, some) + [([], [no], none())]
+            if m == "and_then" and len(args) == 2:
+                return lift(self._apply(args[1], (pv,), bb), yes) + [([], [no], none())]
+            if m == "unwrap_or" and len(args) == 2:
+                return [([], [yes], pv), ([], [no], args[1])]
+            if m == "unwrap_or_else" and len(args) == 2:
+                return [([], [yes], pv)] + lift(self._apply(args[1], (), bb), no)
+            if m == "unwrap_or_default" and len(args) == 1:
+                return [([], [yes], pv), ([], [no], ("call", "std::default::Default::default", gargs, (), None))]
+            if m == "or" and len(args) == 2:
+                return [([], [yes], some(pv)), ([], [no], args[1])]
+            if m == "or_else" and len(args) == 2:
+                return [([], [yes], some(pv))] + lift(self._apply(args[1], (), bb), no)
+            if m == "ok_or" and len(args) == 2:
+                return [([], [yes], okv(pv)), ([], [no], errv(args[1]))]
+            if m == "ok_or_else" and len(args) == 2:
+                return [([], [yes], okv(pv))] + lift(self._apply(args[1], (), bb), no, errv)
+            if m == "map_or" and len(args) == 3:
+                return lift(self._apply(args[2], (pv,), bb), yes) + [([], [no], args[1])]
+            if m == "map_or_else" and len(args) == 3:
+                return lift(self._apply(args[2], (pv,), bb), yes) + lift(self._apply(args[1], (), bb), no)
+            if m == "is_some_and" and len(args) == 2:
+                return lift(self._apply(args[1], (pv,), bb), yes) + [([], [no], F)]
+            if m == "is_none_or" and len(args) == 2:
+                return lift(self._apply(args[1], (pv,), bb), yes) + [([], [no], T)]
+            if m == "filter" and len(args) == 2:
+                out = [([], [no], none())]
+                for (e, fs, v) in self._apply(args[1], (("ref", pv),), bb):
+                    if v is None:
+                        out.append((e, [yes] + fs, None))
+                    elif isinstance(v, tuple) and v[0] == "const" and isinstance(v[2], bool):
+                        out.append((e, [yes] + fs, some(pv) if v[2] else none()))
+                    else:
+                        out.append((e, [yes] + fs + [(v, ("eq", True))], some(pv)))
+                        out.append((e, [yes] + fs + [(v, ("eq", False))], none()))
+                return out
+            return None
+        # Result
+        if m == "ok" and len(args) == 1:
+            return [([], [yes], some(pv)), ([], [no], none())]
+        if m == "err" and len(args) == 1:
+            return [([], [yes], none()), ([], [no], some(ev))]
+        if m == "map" and len(args) == 2:
+            return lift(self._apply(args[1], (pv,), bb), yes, okv) + [([], [no], errv(ev))]
+        if m == "map_err" and len(args) == 2:
+            return [([], [yes], okv(pv))] + lift(self._apply(args[1], (ev,), bb), no, errv)
+        if m == "and_then" and len(args) == 2:
+            return lift(self._apply(args[1], (pv,), bb), yes) + [([], [no], errv(ev))]
+        if m == "or_else" and len(args) == 2:
+            return [([], [yes], okv(pv))] + lift(self._apply(args[1], (ev,), bb), no)
+        if m == "unwrap_or" and len(args) == 2:
+            return [([], [yes], pv), ([], [no], args[1])]
+        if m == "unwrap_or_else" and len(args) == 2:
+            return [([], [yes], pv)] + lift(self._apply(args[1], (ev,), bb), no)
+        if m == "unwrap_or_default" and len(args) == 1:
+            return [([], [yes], pv), ([], [no], ("call", "std::default::Default::default", gargs, (), None))]
+        if m == "is_ok_and" and len(args) == 2:
+            return lift(self._apply(args[1], (pv,), bb), yes) + [([], [no], F)]
+        if m == "is_err_and" and len(args) == 2:
+            return [([], [yes], F)] + lift(self._apply(args[1], (ev,), bb), no)
+        return None
+
     _INLINE_CACHE = {}
 
-    def _inline_summary(self, path):
+    def _inline_summary(self, path, force=False):
         """[(events, [(cond, fact)...], end)] for an inlinable callee, else None.  Inlinable: listed in self.inline, not on the
         current inlining stack, no loops, at most 12 paths, every path returns or diverges, and no term refers to a callee local
         by identity (no &mut-to-local, havoc, mutated, undef): the callee is a pure function of its arguments as far as the terms go."""
         key = path if path in self.fx.fns else norm_path(path)
-        if key not in self.inline or key in self._stack or len(self._stack) >= 3:
+        if (key not in self.inline and not force) or key in self._stack or len(self._stack) >= 3 or key not in self.fx.fns:
             return None
-        ck = (id(self.fx), key, self.inline if isinstance(self.inline, frozenset) else frozenset(self.inline))
+        ck = (id(self.fx), key, self.inline if isinstance(self.inline, frozenset) else frozenset(self.inline), self.desugar)
         if ck in PathEval._INLINE_CACHE:
             r = PathEval._INLINE_CACHE[ck]
         else:
@@ -979,7 +1170,7 @@ class PathEval:
             try:
                 b = Body(f)
                 if not b.loops:
-                    pe = PathEval(self.fx, b, max_paths=12, inline=self.inline, _stack=self._stack + (key,))
+                    pe = PathEval(self.fx, b, max_paths=12, inline=self.inline, _stack=self._stack + (key,), desugar=self.desugar)
                     ps = pe.paths()
                     ok = all(p.end[0] in ("return", "diverge", "unreachable") for p in ps)
                     bad_heads = ("loc", "havoc", "mutated", "undef", "refmut")
@@ -990,8 +1181,8 @@ class PathEval:
                         terms = [p.end[1]] if p.end[0] == "return" else []
                         for e in p.events:
                             terms += [v for v in e.data.values() if isinstance(v, tuple)]
-                            if e.kind == "store":
-                                ok = False
+                            if e.kind == "store" and not (isinstance(e.place, tuple) and mentions(e.place, lambda x: x[0] == "param")):
+                                ok = False      # a store that is not through a parameter (a callee-local aggregate being patched)
                         if any(mentions(t_, lambda x: x[0] in bad_heads) for t_ in terms if isinstance(t_, tuple)):
                             ok = False
                         summ.append(([e for e in p.events], [(e.term, e.fact) for e in p.events if e.kind == "cond"], p.end))
@@ -1106,13 +1297,37 @@ class _Subst:
             r = t
         else:
             r = tuple(self(x) if isinstance(x, tuple) else x for x in t)
+            r = self.simplify(r)
         self.memo[t] = r
+        return r
+
+    @staticmethod
+    def simplify(r):
+        """the projections PathEval.project would have folded had the argument been known when the callee was evaluated"""
+        h = r[0]
+        if h == "deref" and len(r) == 2 and isinstance(r[1], tuple) and r[1] and r[1][0] in ("ref", "refmut"):
+            inner = r[1][1]
+            if isinstance(inner, tuple) and inner and inner[0] == "loc" and len(inner) > 2:
+                return inner[2]
+            return inner
+        if h == "field" and len(r) >= 3 and isinstance(r[1], tuple) and r[1]:
+            b = r[1]
+            if b[0] == "agg" and isinstance(r[2], int) and r[2] < len(b[4]):
+                return b[4][r[2]]
+            if b[0] == "downcast" and isinstance(b[1], tuple) and b[1] and b[1][0] == "agg" and b[1][3] == b[2] and isinstance(r[2], int) and r[2] < len(b[1][4]):
+                return b[1][4][r[2]]
+        if h == "discr" and len(r) == 2 and isinstance(r[1], tuple) and r[1] and r[1][0] == "agg" and r[1][1] == "adt":
+            base = str(r[1][2]).split("<")[0]
+            if base in STD_VARIANTS and r[1][3] in STD_VARIANTS[base]:
+                return ("const", "isize", STD_VARIANTS[base][r[1][3]])
         return r
 
     def event(self, e):
         d = {}
         for k, v in e.data.items():
             d[k] = self(v) if isinstance(v, tuple) else v
+        if e.kind == "store":
+            d["local"] = None
         if "inlined_from" not in d:
             # innermost origin: the helper whose body contains this statement, and the block there
             d["inlined_from"] = self.callee
